@@ -187,6 +187,16 @@ CHECKS = {
         "level_note": "Interrupted and never-compiled diagrams are outside 'any compiled diagram'. State types whose Debug output is plain (no double quote). Node values/bounds in labels are not compared (the property does not mention them).",
         "assumptions": COMMON_ASSUMPTIONS + ["graphviz itself is not installed: well-formedness = acceptance by the harness's strict reader of the DOT subset"],
     },
+
+    "C16": {
+        "engine": "exlab", "cmd": "exlab", "level": "exploration", "engine_name": "exlab", "design_ref": "DESIGN.md §4 C16, §8.6",
+        "budget": {"quick": 60, "thorough": 900},
+        "technique": "runtime monitoring of the shipped example binaries (release build of the working tree): generated well-formed instance files, printed objective compared with python brute-force oracles written from the problem statements; /proc based hang / deadlock verdicts",
+        "rule": "the 12 example programs are built with `cargo build --release --examples` (feature off) from /repo's working tree and run on generated well-formed instance files of sizes 3-8 (bounded-exhaustive grids for knapsack / MISP / max-cut, random beyond; round-robin over the examples, instance i of example e drawn from Random('<seed>/<e>/<i>')) x widths {1,2,3,default} x threads {1,2,4} where the program has such options. Verdict per execution: abnormal exit / panic, 'Aborted: true' (tsptw: timeout status), printed objective != exhaustive enumeration of the underlying combinatorial problem (srflp: 1e-6 tolerance, constant term included; tsptw: makespan, f32x10000 formatting reproduced), deadlock (all tasks asleep, no CPU tick for 5 s), 120 CPU-seconds without result = violated; wall-clock timeout alone = inconclusive. On a wrong objective the instance is re-run at width 1000 (fact agrees_at_width_1000: does the defect need merging / truncation?). Generators respect the well-formedness conditions of DESIGN §4 C16 (positive weights, no duplicate clauses, metric TSPTW matrices, feasible PSP demands, ALP ordering conventions, acyclic SOP precedences ...). Non-trivial = instance whose optimum differs from a trivial baseline (greedy / first feasible), distinct by hash of the instance text.",
+        "level_text": "Exploration: ~2*10^5 executions of the real binaries per quick run (2.8*10^6 thorough) against oracles that are independent from the DP models.",
+        "level_note": "Trusted: the python oracles (each cross-checked on the instances shipped in /repo/resources and, for every disagreement found, by the program's own answer at width 1000) and the parsers of the printed output. Sizes are tiny; hardness comes from small widths.",
+        "assumptions": ["oracles written from the problem statements, not from the DP models", "instance paths always have a parent directory (tsptw derives the instance name from it)", "what was not executed is not covered"],
+    },
 }
 
 HOOK_COMMITS = ["da0cac8"]
